@@ -139,7 +139,20 @@ def finder_case(rng):
     rev = rng.random() < 0.5
     pairs = [list(p) for p in zip(rs, reversed(qs_) if rev else qs_)]
     bi = rng.randint(0, k - 1)
-    return {'kind': 'finder', 'which': rng.choice(['molecule', 'segment']), 'ref': ref, 'qry': qry, 'pairs': pairs,
+    tuned = None
+    if rng.random() < 0.4 and bi + 1 < k:
+        # boundary sizes: make |ref gap| - |query gap| at the break EXACTLY a threshold value (or one off it) by moving the
+        # query labels behind the break; integer coordinates, order and label count preserved
+        target = rng.choice([1, -1]) * rng.choice([2000, 2000, 2001, 1999, 100000, 99999, 100001, 0, 2000.5])
+        lo, hi = sorted((pairs[bi][1], pairs[bi + 1][1]))
+        rgap = abs(ref[pairs[bi][0] - 1] - ref[pairs[bi + 1][0] - 1])
+        qgap = rgap - target
+        if qgap > hi - lo:
+            a = qry[lo - 1]
+            delta = a + qgap - qry[hi - 1]
+            qry = qry[:lo] + [a + (j - (lo - 1)) for j in range(lo, hi - 1)] + [x + delta for x in qry[hi - 1:]]
+            tuned = target
+    return {'kind': 'finder', 'tuned': tuned, 'which': rng.choice(['molecule', 'segment']), 'ref': ref, 'qry': qry, 'pairs': pairs,
             'rev': rev, 'breaks': sorted({bi, rng.randint(0, k - 1)})}
 
 
@@ -192,6 +205,8 @@ def judge_finder_case(c, sh):
         sh.count('finder-raised:' + type(ex).__name__)
         return
     sh.count('finder-runs')
+    if c.get('tuned') is not None:
+        sh.count('finder-runs-with-gap-difference-tuned-to-a-threshold')
     if any(calls.values()):
         sh.nt(case)
     judge_calls(calls, ref, qry, pairs, sh, case, c['which'] + '_indels.look_for_indels_in_breakage')
